@@ -74,6 +74,7 @@ fn append_fresh(scn: &Scenario, trace: &mut Vec<Value>, mode: &str) {
             continue;
         }
         let mut solo = scn.clone();
+        solo.threads = false;
         // in-poll signals are recorded with fn_graph's own events, so that the monitor can tell a function
         // handed out before the signal from one handed out after it
         let inside = mine.iter().any(|st| matches!(st, crate::scenario::Step::Open { signal: true, .. }));
@@ -516,6 +517,8 @@ fn base_scn(id: String, n: usize, calls: Vec<BCall>, reads: Vec<Vec<usize>>, wri
         phases: vec![],
         tokio: false,
         burn: vec![],
+        threads: false,
+        xdrop: false,
     }
 }
 
@@ -1121,6 +1124,7 @@ pub fn generate(p: &GenParams, out: &mut Out) {
                 }
                 let mut s = base_scn(format!("w-{i}"), n, calls_of(&e, 0), vec![], vec![]);
                 s.tokio = sub % 2 == 0;
+                s.xdrop = streams && sub % 3 == 0;
                 s.phases.push(runs_phase(vec![c]));
                 let mut r2 = Rng::new(sub);
                 let (mut scn, mut trace) = random_walk(&s, &x, false, 8 * n + 12, &mut r2);
@@ -1147,8 +1151,13 @@ pub fn generate(p: &GenParams, out: &mut Out) {
                             if !focus_ok(c, &p.focus) {
                                 continue;
                             }
-                            for variant in 0..3u8 {
+                            for variant in 0..4u8 {
                                 let ds = variant == 1;
+                                // variant 3: FnRefs are dropped on another thread
+                                let xd = variant == 3;
+                                if xd && (p.hooks || !(thorough || n <= 2)) {
+                                    continue;
+                                }
                                 // variant 2: a second consumer task (own waker) may take over polling
                                 let mw = variant == 2;
                                 if (ds || mw) && !(thorough || n <= 2) {
@@ -1162,6 +1171,7 @@ pub fn generate(p: &GenParams, out: &mut Out) {
                                 }
                                 let mut s = base_scn(format!("s{n}-{gi}-{code}-{ci}-{variant}"), n, calls_of(e, gi as u64), reads.clone(), writes.clone());
                                 s.phases.push(runs_phase(vec![c.clone()]));
+                                s.xdrop = xd;
                                 let x = ExploreOpts { drop_stream: ds, multi_waker: mw, ..Default::default() };
                                 exhaustive(&s, &x, p.hooks, 64, if mw { 6_000 } else { 30_000 }, &mut emit);
                             }
@@ -1199,6 +1209,7 @@ pub fn generate(p: &GenParams, out: &mut Out) {
                 }
                 let mut s = base_scn(format!("sr-{i}"), n, calls_of(&e, rng.next()), reads, writes);
                 s.tokio = sub % 4 == 0;
+                s.xdrop = !p.hooks && sub % 3 == 0;
                 s.phases.push(runs_phase(vec![c]));
                 let mut r2 = Rng::new(sub);
                 let (mut scn, mut trace) = random_walk(&s, &x, p.hooks, 8 * n + 12, &mut r2);
@@ -1363,6 +1374,61 @@ pub fn generate(p: &GenParams, out: &mut Out) {
                     f["scn"] = Value::String(scn.id.clone());
                 }
                 append_fresh(&scn, &mut trace, if overlap { "overlap" } else { "seq" });
+                emit(&scn, &trace);
+            }
+        }
+        // Two or three runs on one graph value, each living on its own OS thread (turn-taking): whatever the code under
+        // test keeps per thread, or assumes about the thread that wakes / drops, differs from the single-threaded histories.
+        "multi_threads" => {
+            let mut rng = Rng::new(p.seed ^ 0x7A2EAD5);
+            let cnt = if p.count > 0 { p.count } else if thorough { 6000 } else { 600 };
+            let max_n = if p.max_n > 0 { p.max_n } else { 6 };
+            for i in 0..cnt {
+                let n = if rng.chance(1, 4) { 7 + rng.below(8) } else { 1 + rng.below(max_n) };
+                let dens = *rng.pick(&[0u64, 10, 20, 40, 60]);
+                let mut e = random_dag(&mut rng, n, dens, false);
+                if n >= 3 && rng.chance(1, 3) {
+                    // fan-in: the last function waits for all others
+                    e = (1..n).map(|a| (a, n)).collect();
+                }
+                let none = *rng.pick(&[50u64, 80, 100]);
+                let (reads, writes) = random_access(&mut rng, n, 2, none);
+                let k = 2 + rng.below(3) / 2;
+                let mut runs: Vec<RunCfg> = Vec::new();
+                for _ in 0..k {
+                    let st = rng.chance(1, 3);
+                    let mut c = random_cfg(&mut rng, st);
+                    c.mutv = false;
+                    if let Some(prev) = runs.last() {
+                        if rng.chance(1, 2) {
+                            c = prev.clone();
+                        }
+                    }
+                    random_sync(&mut rng, &mut c, n, 1);
+                    runs.push(c);
+                }
+                let x = ExploreOpts {
+                    max_fail: 1,
+                    signals: true,
+                    overlap: true,
+                    drop_stream: true,
+                    stream_style: *rng.pick(&[0u8, 0, 1, 2]),
+                    ..Default::default()
+                };
+                let sub = rng.next();
+                if !sel.take() {
+                    continue;
+                }
+                let mut s = base_scn(format!("mt-{i}"), n, calls_of(&e, rng.next()), reads, writes);
+                s.threads = true;
+                s.phases.push(runs_phase(runs));
+                let mut r2 = Rng::new(sub);
+                let (mut scn, mut trace) = random_walk_online(&s, &x, false, 10 * n + 24, &mut r2);
+                scn.id = s.id.clone();
+                if let Some(f) = trace.first_mut() {
+                    f["scn"] = Value::String(scn.id.clone());
+                }
+                append_fresh(&scn, &mut trace, "overlap");
                 emit(&scn, &trace);
             }
         }
